@@ -91,6 +91,14 @@ pub struct ScenarioF {
     pub async_delays: Vec<u8>,
     pub tokio_seed: u64,
     pub audit_rx_drop_at: Option<usize>,
+    /// a second consumer joins late: after this many events it is seeded with a fresh
+    /// `audit_snapshot()` of the running engine and follows the records from there on
+    #[serde(default)]
+    pub late_join_at: Option<usize>,
+    /// every simulated timestamp lies decades after the machine's real clock (a deterministic system
+    /// must not care what the real time is)
+    #[serde(default)]
+    pub far_future: bool,
 }
 
 pub struct SimF;
@@ -260,11 +268,14 @@ impl Sim for SimF {
             } else {
                 None
             },
+            late_join_at: if rng.chance(1, 4) { Some(rng.usize(n)) } else { None },
+            far_future: rng.chance(1, 6),
         }
     }
 
     fn execute(&self, sc: &ScenarioF, ctx: &ExecCtx<'_>) -> Outcome {
         let pid = "C10";
+        let _epoch = set_epoch_shift_days(if sc.far_future { 365 * 80 } else { 0 });
         let mut log = Log::new(ctx.keep_log);
         let mut stats = RunStats::default();
         let mut violation: Option<Violation> = None;
@@ -532,6 +543,42 @@ impl Sim for SimF {
                 }
             }
 
+            // ================= (v) a consumer that joins late ==================================
+            // An independent engine processes the same feed; after `late_join_at` events a snapshot is
+            // taken from it (orders may be in flight, cancels pending, positions open at that moment)
+            // and a replica seeded with that snapshot follows the remaining records.
+            if let Some(join) = sc.late_join_at {
+                let (w5, mut e5) = WorldB::build(&sc.base);
+                let mut feed5 = Feed::new(&w5, &sc.base);
+                let mut k = 0usize;
+                let mut joined: Option<(StateReplicaManager<St, std::iter::FromFn<Box<dyn FnMut() -> Option<Tick>>>>, Rc<RefCell<VecDeque<Tick>>>)> = None;
+                while let Some(ev) = feed5.next() {
+                    if k == join && joined.is_none() {
+                        let snap = snapshot_of(&mut e5);
+                        let queue: Rc<RefCell<VecDeque<Tick>>> = Rc::new(RefCell::new(VecDeque::new()));
+                        let q2 = queue.clone();
+                        let f: Box<dyn FnMut() -> Option<Tick>> = Box::new(move || q2.borrow_mut().pop_front());
+                        joined = Some((StateReplicaManager::new(snap, std::iter::from_fn(f)), queue));
+                        stats.probe("replica_seeded_from_mid_run_snapshot");
+                    }
+                    let tick: Tick = process_with_audit(&mut e5, ev);
+                    let term = tick.event.is_terminal();
+                    if let Some((replica, queue)) = joined.as_mut() {
+                        queue.borrow_mut().push_back(tick);
+                        if let Err(e) = replica.run::<u64, ExchangeId>() {
+                            fail!('run, "A2_replica_rejected_contiguous_tick", k, "late-joining replica (snapshot after {join} events) rejected the record of event {k}: {e}");
+                        }
+                        if let Some(d) = diff_states(&e5.state, replica.replica_engine_state()) {
+                            fail!('run, "A2_replica_diverged", k, "late-joining replica (snapshot after {join} events) differs from the engine after event {k}: {d}");
+                        }
+                    }
+                    k += 1;
+                    if term {
+                        break;
+                    }
+                }
+            }
+
             // ================= replica behind the audit network ================================
             // delivery order after network faults
             let mut delivery: Vec<usize> = (0..ticks1.len()).collect();
@@ -708,6 +755,7 @@ impl Sim for SimF {
     fn probe_kinds(&self) -> Vec<&'static str> {
         vec![
             "feed_ended_without_shutdown",
+            "replica_seeded_from_mid_run_snapshot",
             "terminal_fatal_error_tick",
             "terminal_shutdown_tick",
             "old_tick_skipped",
